@@ -23,6 +23,8 @@ RULES = {
     'C03.e': 'unwatch retains exactly the senders that are NOT the caller\'s; watch stores the existing list plus the caller',
     'C03.f': 'every notification is sent through a fresh clone of the watcher\'s sender (futures mpsc guarantees one slot per sender '
              'handle: a clone reused for a second send can be refused when the subscriber has a backlog)',
+    'C03.g': 'a notifier sends what it was handed: a body that only notifies (locks Watchers.map and sends, writes nothing) takes no '
+             'lock of Database.map — value and version of a notification are the committed operands, not a later re-read',
 }
 
 VALUE_MAP = 'std::collections::HashMap::<std::string::String, nundb::bo::Value>::'
@@ -191,6 +193,22 @@ def run(ck, m):
                 ck.ob('C03.f', short(b.id), 'clone-used-once', False,
                       'one sender clone (%s) feeds %d try_send calls: the second can be refused when the subscriber is behind' % (b.loc(c), len(bis)), b.loc(c))
     ck.floor('C03.f', nf, 4, 'notification sends')
+    # ---- (g) ---------------------------------------------------------------------------
+    ng = 0
+    for nid in sorted(notifiers):
+        b = P.bodies[nid]
+        own = {l for l, _ in S.get(nid, ())}
+        writes_map = any(mode == 'W' and l == 'Database.map' for l, mode in S.get(nid, ()))
+        if writes_map:
+            continue      # a mutator that notifies inline (judged by C03.a)
+        ng += 1
+        reread = 'Database.map' in own
+        ck.ob('C03.g', short(b.id), 'sends-committed-operands', not reread,
+              'the notifier reads nothing from Database.map: it sends the operands it was handed' if not reread else
+              '%s reads Database.map while notifying: the value comes from the writer\'s commit but the re-read part (version) from whichever '
+              'commit is newest when the notification is sent — two writers produce (a, n+1) and (b, n+1), version n is never announced and the '
+              'highest-versioned notification may carry a stale value' % short(b.id), '%s:%s' % (b.file, b.line))
+    ck.floor('C03.g', ng, 1, 'pure notifier bodies')
     # ---- (c) ---------------------------------------------------------------------------
     n = 0
     hit = False
